@@ -387,11 +387,14 @@ theorem satReqB_iff (exro : Bool) : ∀ (s : RS) (v : V), satReqB exro s v = tru
     refine satCB_iff false _ _ ?_ s
     intro s'
     unfold ownObj OwnObj
-    rw [ih.1]
-    simp only [Bool.and_eq_true, permits_iff, roLoopOK_iff, requiredOK_iff, ih.2 s']
+    have hlen : (satFieldsB exro kvs).length = (SatFields exro kvs).length := by
+      have := congrArg List.length ih.1
+      simpa [keys] using this
+    rw [ih.1, hlen]
+    simp only [Bool.and_eq_true, permits_iff, roLoopOK_iff, requiredOK_iff, countOK_iff, ih.2 s']
     constructor
-    · rintro ⟨⟨⟨h1, h2⟩, h3⟩, h4⟩; exact ⟨h1, h3, h4, h2⟩
-    · rintro ⟨h1, h3, h4, h2⟩; exact ⟨⟨⟨h1, h2⟩, h3⟩, h4⟩
+    · rintro ⟨⟨⟨⟨h1, h2⟩, hc⟩, h3⟩, h4⟩; exact ⟨h1, h3, hc.1, hc.2, h4, h2⟩
+    · rintro ⟨h1, h3, hc1, hc2, h4, h2⟩; exact ⟨⟨⟨⟨h1, h2⟩, ⟨hc1, hc2⟩⟩, h3⟩, h4⟩
   case inil => intro it; simp [satItemsB, SatItems]
   case icons =>
     intro v r ih1 ih2 it
@@ -478,9 +481,9 @@ theorem readOnly_inside_members :
     let pa := RS.leaf (some .string) false true false 0 none [] [] none none
     let m := RS.leaf none false false false 0 none [(['a'], pa)] [['a']] none none
     let other := RS.leaf (some .string) false false false 0 none [] [] none none
-    let sAny := RS.mk (some .object) false false false 0 none [] [] none none none [] [other, m] [] none
-    let sOne := RS.mk (some .object) false false false 0 none [] [] none none none [other, m] [] [] none
-    let sAll := RS.mk (some .object) false false false 0 none [] [] none none none [] [] [m] none
+    let sAny := RS.mk (some .object) false false false 0 none [] [] none none none [] [other, m] [] {}
+    let sOne := RS.mk (some .object) false false false 0 none [] [] none none none [other, m] [] [] {}
+    let sAll := RS.mk (some .object) false false false 0 none [] [] none none none [] [] [m] {}
     let sent := V.obj [(['a'], .str ['x'])]
     [sAny, sOne, sAll].all (fun s => visit false s (.obj []) && !visit false s sent && visit true s sent &&
       satReqB false s (.obj []) && !satReqB false s sent && satReqB true s sent) = true := by decide
@@ -490,10 +493,10 @@ member, and a nullable schema admits it before any composition is looked at (the
 example :
     let strN := RS.leaf (some .string) true false false 0 none [] [] none none
     let str := RS.leaf (some .string) false false false 0 none [] [] none none
-    visit false (RS.mk none false false false 0 none [] [] none none none [] [strN] [] none) .null = true ∧
-    visit false (RS.mk none false false false 0 none [] [] none none none [] [] [strN, str] none) .null = false ∧
-    visit false (RS.mk none true false false 0 none [] [] none none none [] [] [str] none) .null = true ∧
-    visit false (RS.mk none false false false 0 none [] [] none none (some strN) [] [strN] [] none) .null = false := by decide
+    visit false (RS.mk none false false false 0 none [] [] none none none [] [strN] [] {}) .null = true ∧
+    visit false (RS.mk none false false false 0 none [] [] none none none [] [] [strN, str] {}) .null = false ∧
+    visit false (RS.mk none true false false 0 none [] [] none none none [] [] [str] {}) .null = true ∧
+    visit false (RS.mk none false false false 0 none [] [] none none (some strN) [] [strN] [] {}) .null = false := by decide
 
 /-- **write-only properties are allowed in requests**: clearing every `writeOnly` flag of a schema (at any
 depth of properties, items and composition members) never changes the request-side verdict, for either
@@ -736,8 +739,8 @@ theorem mergeKV_nodup (l : List (Str × V)) (h : (keys l).Nodup) : mergeKV l = s
 theorem encoding_applies_inside_members :
     let arrInt := RS.leaf (some .array) false false false 0 none [] [] none (some (RS.leaf (some .integer) false false false 0 none [] [] none none))
     let m := RS.leaf none false false false 0 none [(['a'], arrInt)] [] none none
-    let sAll := RS.mk (some .object) false false false 0 none [] [] none none none [] [] [m] none
-    let sAny := RS.mk (some .object) false false false 0 none [] [] none none none [] [m] [] none
+    let sAll := RS.mk (some .object) false false false 0 none [] [] none none none [] [] [m] {}
+    let sAny := RS.mk (some .object) false false false 0 none [] [] none none none [] [m] [] {}
     let encs := [(['a'], ({ style := "pipeDelimited".toList, explode := some false } : Enc))]
     let form := some [(['a'], ["1|2".toList])]
     [sAll, sAny].all (fun s =>
@@ -1118,7 +1121,7 @@ theorem no_default_no_fire (exro : Bool) : ∀ s v, hasDflt s = false → firesD
       have ihr := ih (fun y hy => hps y (by simp [hy])) hd.2
       have hpd : p.dflt = none := by
         cases p; unfold hasDflt at hd; simp only [Bool.or_eq_false_iff] at hd
-        simpa [RS.dflt] using hd.1.1.1.1.1.1.1
+        simpa [RS.dflt, RS.extra] using hd.1.1.1.1.1.1.1
       constructor
       · unfold firesProps firesPropStep
         cases hl : lookup k kvs with
@@ -1210,7 +1213,7 @@ theorem inject_spec (exro : Bool) (props : List (Str × RS)) (kvs : List (Str ×
        | none => (match lookup k props with | some p => dfltFor exro p | none => none)) :=
   lookup_inject exro props hn k kvs
 
-def exIntD (ro wo : Bool) (d : Option V) : RS := RS.mk (some .integer) false ro wo 0 none [] [] none none none [] [] [] d
+def exIntD (ro wo : Bool) (d : Option V) : RS := RS.mk (some .integer) false ro wo 0 none [] [] none none none [] [] [] { dflt := d }
 def exObjD (props : List (Str × RS)) (req : List Str) : RS := RS.leaf (some .object) false false false 0 none props req none none
 
 /-- r3-m2 regression: `{a: integer, readOnly, default 1}`; the request `{}` omits `a`: accepted with and without
@@ -1219,7 +1222,7 @@ default-setting, with and without the exclusion option; as a member of `allOf` /
 theorem readOnly_default_regression :
     let s := exObjD [(['a'], exIntD true false (some (.int 1)))] []
     let wrap := fun (k : Nat) => RS.mk (some .object) false false false 0 none [] [] none none none
-      (if k = 0 then [s] else []) (if k = 1 then [s] else []) (if k = 2 then [s] else []) none
+      (if k = 0 then [s] else []) (if k = 1 then [s] else []) (if k = 2 then [s] else []) {}
     [s, wrap 0, wrap 1, wrap 2].all (fun s =>
       (visD true false s (.obj [])).isSome && (visD true true s (.obj [])).isSome && visit false s (.obj []) &&
       !firesD false s (.obj []) && firesD true s (.obj []) &&
@@ -1246,15 +1249,27 @@ theorem default_decides_witnesses :
     let s2 := exObjD [(['a'], exIntD false false (some (.str ['x'])))] []
     let m1 := RS.leaf none false false false 0 none [(['a'], pa)] [] none none
     let m2 := RS.leaf none false false false 0 none [] [] (some false) none
-    let s3 := RS.mk (some .object) false false false 0 none [] [] none none none [] [] [m1, m2] none
+    let s3 := RS.mk (some .object) false false false 0 none [] [] none none none [] [] [m1, m2] {}
     let o1 := RS.leaf none false false false 0 none [(['a'], pa)] [['a']] none none
     let o2 := RS.leaf none false false false 0 none [(['b'], exIntD false false (some (.int 2)))] [['b']] none none
-    let s4 := RS.mk (some .object) false false false 0 none [] [] none none none [o1, o2] [] [] none
+    let s4 := RS.mk (some .object) false false false 0 none [] [] none none none [o1, o2] [] [] {}
     ((visD true false s1 (.obj [])).isSome = true ∧ satReqB false s1 (.obj []) = false ∧ defaultsNeutral false s1 (.obj []) = false) ∧
     ((visD true false s2 (.obj [])).isSome = false ∧ satReqB false s2 (.obj []) = true ∧ defaultsNeutral false s2 (.obj []) = false) ∧
     ((visD true false s3 (.obj [])).isSome = false ∧ satReqB false s3 (.obj []) = true ∧ defaultsNeutral false s3 (.obj []) = false) ∧
     ((visD true false s4 (.obj [(['a'], .int 5)])).isSome = false ∧ satReqB false s4 (.obj [(['a'], .int 5)]) = true ∧
       defaultsNeutral false s4 (.obj [(['a'], .int 5)]) = false) := by decide
+
+/-- (5) `maxProperties` exceeded only by the injected default — the valid request `{"b":1}` is rejected;
+(6) `minProperties` reached only thanks to the injected default — `{}` is accepted though it has no member -/
+theorem default_counts_witnesses :
+    let pa := exIntD false false (some (.int 1))
+    let pb := exIntD false false none
+    let s5 := RS.mk (some .object) false false false 0 none [(['a'], pa), (['b'], pb)] [] none none none [] [] [] { maxProps := some 1 }
+    let s6 := RS.mk (some .object) false false false 0 none [(['a'], pa)] [] none none none [] [] [] { minProps := 1 }
+    ((visD true false s5 (.obj [(['b'], .int 1)])).isSome = false ∧ satReqB false s5 (.obj [(['b'], .int 1)]) = true ∧
+      defaultsNeutral false s5 (.obj [(['b'], .int 1)]) = false ∧ (visD false false s5 (.obj [(['b'], .int 1)])).isSome = true) ∧
+    ((visD true false s6 (.obj [])).isSome = true ∧ satReqB false s6 (.obj []) = false ∧
+      defaultsNeutral false s6 (.obj []) = false) := by decide
 
 /-- non-vacuity of `defaults_neutral`: a default fires and is neutral (optional property, conforming default,
 nested completion) — both verdicts occur -/
